@@ -487,7 +487,11 @@ class LogicalLinkController(object):
                 self.dispatch(rcvd_pdu)
                 send_pdu = self.collect(delay=0.001)
                 if send_pdu is None and symm >= 10:
-                    send_pdu = self.collect(delay=0.05)
+                    # idle link: wait a while for something to send, but
+                    # stay well within the link timeout we announced
+                    # (the LTO parameter counts multiples of 10 ms)
+                    send_pdu = self.collect(delay=min(
+                        0.05, 5E-3 * (self.cfg['send-lto'] // 10)))
             else:
                 self.link.DISCONNECT = True
                 self.terminate(reason="local choice")
@@ -550,7 +554,11 @@ class LogicalLinkController(object):
                 self.dispatch(rcvd_pdu)
                 send_pdu = self.collect(delay=0.001)
                 if send_pdu is None and symm >= 10:
-                    send_pdu = self.collect(delay=0.05)
+                    # idle link: wait a while for something to send, but
+                    # stay well within the link timeout we announced
+                    # (the LTO parameter counts multiples of 10 ms)
+                    send_pdu = self.collect(delay=min(
+                        0.05, 5E-3 * (self.cfg['send-lto'] // 10)))
                 if send_pdu is None:
                     send_pdu = pdu.Symmetry()
                 rcvd_pdu = self.exchange(send_pdu, recv_timeout)
